@@ -61,6 +61,15 @@ def run(tier, seed, t0):
         jobs.append(Job("noisy-t%d-bb%d-%d-%d" % (t, bb, ni, no), "drv_c08", "optim", "spqlios-fma",
                         ["--mode", "noisy", "--t", t, "--basebit", bb, "--n_in", ni, "--n_out", no,
                          "--alpha", 2.0 ** la, "--K", K, "--seed", seed], timeout=3600))
+    # keys made by the library's own generator with a noise parameter far below the torus resolution: every row must carry
+    # exactly its message, and the error of a switch is the rounding alone; every layout of the sweep, odd dimensions
+    for (t, bb) in LAYOUTS + [(30, 1), (6, 5), (4, 7)]:
+        ni, no = (37, 5) if bb <= 4 else (9, 3)
+        if t * bb < 6:
+            ni = 1      # the sum of the rounding errors must stay below half the torus for the statistics to be meaningful
+        jobs.append(Job("generated-noiseless-t%d-bb%d" % (t, bb), "drv_c08", "optim" if (t + bb) % 2 else "debug", "spqlios-fma" if (t + bb) % 2 else "nayuki-portable",
+                        ["--mode", "noisy", "--t", t, "--basebit", bb, "--n_in", ni, "--n_out", no,
+                         "--alpha", 2.0 ** -45, "--K", 40000 if thorough else 10000, "--seed", seed + 11], timeout=3600))
     jobs.append(Job("memcheck-exact", "drv_c08", "vg", "spqlios-fma",
                     ["--mode", "multi", "--t", 8, "--basebit", 2, "--n_in", 5, "--n_out", 3, "--reps", 50, "--seed", seed],
                     tool="memcheck", timeout=1200))
